@@ -43,6 +43,7 @@ class LostAnchor(Exception):
 class Clause:
     def __init__(self, kind, tags, text, fn, idx, loop=None):
         self.kind, self.tags, self.text, self.fn, self.idx, self.loop = kind, tags, text, fn, idx, loop
+        self.explicit = False   # True when the clause carries its own [tags] (not the function's default tags)
 
     @property
     def oid(self):
@@ -113,7 +114,9 @@ def parse_ctr(text, fname='<ctr>'):
                 tgt = {'requires': cur.requires, 'ensures': cur.ensures}.get(kind) if loop is None else cur.loops[loop][kind]
             for p in paras:
                 t = tags if tags else cur.tags
-                tgt.append(Clause(kind if loop is None else kind, t, p.rstrip().rstrip(','), cur.name, len(tgt), loop))
+                cl_ = Clause(kind if loop is None else kind, t, p.rstrip().rstrip(','), cur.name, len(tgt), loop)
+                cl_.explicit = bool(tags)
+                tgt.append(cl_)
         buf = []
         section = None
 
@@ -181,7 +184,11 @@ def parse_ctr(text, fname='<ctr>'):
                 if rest:
                     buf.append(rest)
             elif d == 'at':
-                section = ('at', rest, None)
+                tm2 = re.match(r'\[([^\]]*)\]\s*(.*)', rest)
+                if tm2:   # `@at [C01 C06] <anchor>`: proof text serving only these properties
+                    section = ('at', ([t for t in re.split(r'[,\s]+', tm2.group(1)) if t], tm2.group(2)), None)
+                else:
+                    section = ('at', rest, None)
             else:
                 raise ContractError('%s:%d unknown directive @%s' % (fname, ln, d))
         elif s.startswith('#') and section is None:
@@ -404,7 +411,11 @@ def _splice_one(c, rel, fns, src, msk, add, registry):
         for at_idx, (anchor, text) in enumerate(c.ats):
             check_ghost_only(c.name, text)
             # contract-authored proof text is an obligation of its own (its assertions existed on the unchanged tree)
-            cl_at = Clause('at', c.tags, anchor, c.name, at_idx)
+            at_tags = None
+            if isinstance(anchor, tuple):
+                at_tags, anchor = anchor
+            cl_at = Clause('at', at_tags or c.tags, anchor, c.name, at_idx)
+            cl_at.explicit = bool(at_tags)
             registry.append(cl_at)
             text = '\n/*#OB %s*/\n' % cl_at.oid + text + '\n/*#END*/\n'
             m = re.fullmatch(r'loop(\d+)\.(before|body_start|body_end|after)', anchor)
